@@ -39,7 +39,7 @@ def worker(args):
     sub = core.Sub()
     env = sx.Env(catalog.by_name(name))
     rel = name.split('-')[0]
-    ops = [op for op in env.ops() if op[0] != 'qdel']          # bulk delete bypasses the cache by design (C15)
+    ops = [op for op in env.ops() if op[0] != 'qdel'] + env.shaping_reads()          # bulk delete bypasses the cache by design (C15)
     ex = sx.Explorer(env, fixtures=(fixture,), ops=ops)
     presigs = {}
     def check(hist, which):
